@@ -1,6 +1,7 @@
 """C14 - isotopic distributions are normalised, centred on the right masses and complete."""
 import signal
 import itertools
+import math
 
 from vf.ref import atoms
 from vf.ref import isotope as ri
@@ -13,7 +14,7 @@ EXHAUSTIVE = {'quick': 'exact multinomial comparison for every composition with 
 RULE = ('compositions over C,H,N,O,S,P (normalisation and mean clauses also Se,Cl,Br,Fe), integer and fractional counts, '
         'optional e/p/n entries, isotope-labelled elements, option grid (max_isotopes, min_abundance_threshold, '
         'distribution_resolution 0..6, use_neutron_count x output_masses_for_neutron_offset, distribution_abundance, '
-        'is_abundance_sum); post-conditions on isotopic_distribution / estimate_isotopic_distribution / '
+        'is_abundance_sum); 20% of the calls preceded by a call on the same formula with other settings (convolution threshold, max_isotopes, resolution ...); post-conditions on isotopic_distribution / estimate_isotopic_distribution / '
         'merge_isotopic_distributions: sorted, normalised, lightest peak = monoisotopic mass incl. particles, weighted '
         'mean = average mass within a per-case allowance (replay of the documented 1e-8 convolution floor), neutron-offset '
         'view = mass view binned by nominal offset, exact multinomial peaks for small formulas, merge adds abundances. '
@@ -120,6 +121,14 @@ def gen_comp(rng, small=False, heavy_ok=True):
                 comp[sym] = round(comp[sym] + rng.uniform(-0.49, 0.49), rng.choice([1, 2, 3]))
                 if comp[sym] < 0:
                     comp[sym] = 0.3
+    if rng.random() < 0.08:
+        # counts that come out of float arithmetic: an integer value held as a float, or one ulp off an integer
+        # (0.29 * 100 == 28.999999999999996); the nearest integer is the number of atoms
+        for sym in rng.sample(list(comp), rng.randint(1, len(comp))):
+            if comp[sym] >= 1 and isinstance(comp[sym], int):
+                v = float(comp[sym])
+                comp[sym] = rng.choice([v, math.nextafter(v, 0.0), math.nextafter(v, math.inf), v * (1 - 2e-16)])
+        frac = True
     parts = {}
     if rng.random() < 0.25:
         for pname in rng.sample(['e', 'p', 'n'], rng.randint(1, 2)):
@@ -344,6 +353,7 @@ def gen_opts(rng):
 def run(ctx):
     st = State()
     pt = install(ctx, st)
+    ctx.enable_disturb(pt, 0.03)     # other legitimate library calls interleaved between cases (vf.gen.disturb)
     rng = ctx.rng
     # exact comparison, enumerated
     k = 0
@@ -371,6 +381,15 @@ def run(ctx):
         small = rng.random() < 0.85
         comp, frac = gen_comp(rng, small)
         opts = gen_opts(rng) if rng.random() < 0.7 else {}
+        if rng.random() < 0.2:
+            # the same formula asked for first with other settings (a coarse preview: convolution threshold, few
+            # isotopes, another resolution); the call under observation answers for its own settings
+            pre = rng.choice([{'conv_min_abundance_threshold': 1e-3}, {'conv_min_abundance_threshold': 0.05},
+                              {'max_isotopes': 2}, {'distribution_resolution': 1}, {'min_abundance_threshold': 0.01},
+                              {'use_neutron_count': True}, {'precision': 2}])
+            pre = dict({k2: v2 for k2, v2 in opts.items() if k2 not in pre and rng.random() < 0.7}, **pre)
+            with ctx.eng.suspend():
+                call(st, pt.isotopic_distribution, dict(comp), **pre)
         check_distribution(ctx, st, pt, comp, frac, opts)
         elems, parts = split_comp(comp)
         n_atoms = sum(elems.values())
